@@ -117,5 +117,9 @@ def disasm (a : Arch) (w : Bits) : Option Instr :=
     | none => none
     | some fs => some ⟨op, decOperands a fs (w.drop a.opBits)⟩
 
+/-- `Machine.Disassembler` on a whole program: every word on its own, in order (`none` = the Go
+    code returns an error for some word) -/
+def disasmProgram (a : Arch) (ws : List Bits) : Option (List Instr) := ws.mapM (disasm a)
+
 end Encode
 end BMV
